@@ -43,11 +43,12 @@ func TestMain(m *testing.M) {
 
 // Case is one streaming call.
 type Case struct {
-	Shape       string   `json:"shape"`     // client | server | bidi | upload | download
-	Transport   string   `json:"transport"` // grpc | grpcweb | grpcwebtext | httpjson | httpproto | httpbody
-	Gzip        bool     `json:"gzip"`      // gRPC per-message gzip / HTTP Content-Encoding: gzip
-	Msgs        [][]byte `json:"msgs"`      // wire form of un.All; upload: Msgs[0] = raw bytes
-	Replies     [][]byte `json:"replies"`   // wire form of un.All; download: raw data parts
+	Shape       string   `json:"shape"`        // client | server | bidi | upload | download
+	Transport   string   `json:"transport"`    // grpc | grpcweb | grpcwebtext | httpjson | httpproto | httpbody
+	Gzip        bool     `json:"gzip"`         // gRPC per-message gzip / HTTP Content-Encoding: gzip
+	PlainFrames []bool   `json:"plain_frames"` // gRPC with Gzip: message i travels uncompressed (flag 0), as grpc-go does for empty messages
+	Msgs        [][]byte `json:"msgs"`         // wire form of un.All; upload: Msgs[0] = raw bytes
+	Replies     [][]byte `json:"replies"`      // wire form of un.All; download: raw data parts
 	PingPong    bool     `json:"ping_pong"`
 	Chunks      []int    `json:"chunks"`
 	EOFWithLast bool     `json:"eof_with_last"`
@@ -182,8 +183,9 @@ func encodeRequest(c Case, w *dyn.World) (body []byte, bounds []int, hdr http.He
 	exactBounds = true
 	switch c.Transport {
 	case "grpc", "grpcweb", "grpcwebtext":
-		for _, m := range c.Msgs {
-			buf.Write(drive.GRPCFrame(m, c.Gzip))
+		for i, m := range c.Msgs {
+			plain := i < len(c.PlainFrames) && c.PlainFrames[i]
+			buf.Write(drive.GRPCFrame(m, c.Gzip && !plain))
 			bounds = append(bounds, buf.Len())
 		}
 		if c.Gzip {
@@ -669,7 +671,7 @@ func brief(c Case, bodyLen int) string {
 	for _, m := range c.Msgs {
 		sizes = append(sizes, strconv.Itoa(len(m)))
 	}
-	return fmt.Sprintf("%s/%s gzip=%v sizes=[%s] body=%dB chunks=%v eofWithLast=%v truncateAt=%d pingpong=%v", c.Transport, c.Shape, c.Gzip, strings.Join(sizes, ","), bodyLen, c.Chunks, c.EOFWithLast, c.TruncateAt, c.PingPong)
+	return fmt.Sprintf("%s/%s gzip=%v plain=%v sizes=[%s] body=%dB chunks=%v eofWithLast=%v truncateAt=%d pingpong=%v", c.Transport, c.Shape, c.Gzip, c.PlainFrames, strings.Join(sizes, ","), bodyLen, c.Chunks, c.EOFWithLast, c.TruncateAt, c.PingPong)
 }
 
 // ---------------------------------------------------------------------------
@@ -716,7 +718,7 @@ func genCase(t *rapid.T) Case {
 		x := uint32(n*2654435761 + 12345)
 		for i := range b {
 			x = x*1664525 + 1013904223
-			b[i] = byte(x >> 24) & 0x3f // mildly compressible
+			b[i] = byte(x>>24) & 0x3f // mildly compressible
 		}
 		c.Msgs = [][]byte{b}
 		c.Replies = [][]byte{genMsg(t, "reply")}
@@ -738,6 +740,12 @@ func genCase(t *rapid.T) Case {
 			c.Replies = append(c.Replies, genMsg(t, "reply"))
 		}
 		c.PingPong = rapid.Bool().Draw(t, "pingpong")
+		if c.Gzip && strings.HasPrefix(c.Transport, "grpc") && rapid.Bool().Draw(t, "mixedFlags") {
+			// the compressed flag is per message: an encoding may be negotiated and a message still sent plain
+			for _, m := range c.Msgs {
+				c.PlainFrames = append(c.PlainFrames, len(m) == 0 || rapid.IntRange(0, 2).Draw(t, "plain") == 0)
+			}
+		}
 	}
 	if rapid.IntRange(0, 5).Draw(t, "fail") == 0 {
 		c.FinalCode = rapid.SampledFrom([]int{3, 5, 9, 13}).Draw(t, "code")
@@ -781,6 +789,12 @@ func TestProp(t *testing.T) {
 		cl := []string{"transport=" + c.Transport, "shape=" + c.Shape}
 		if c.Gzip {
 			cl = append(cl, "gzip")
+			for _, p := range c.PlainFrames {
+				if p {
+					cl = append(cl, "gzip-stream-with-plain-frame")
+					break
+				}
+			}
 		}
 		if in.splitInside {
 			cl = append(cl, "split-inside")
@@ -800,7 +814,7 @@ func TestProp(t *testing.T) {
 			for _, m := range c.Msgs {
 				sizes = append(sizes, strconv.Itoa(len(m)))
 			}
-			key = fmt.Sprintf("%s|%s|%v|%s|%d|%v|%v|%d|%v|%d", c.Transport, c.Shape, c.Gzip, strings.Join(sizes, ","), len(c.Replies), c.Chunks, c.EOFWithLast, c.TruncateAt, c.PingPong, c.FinalCode)
+			key = fmt.Sprintf("%s|%s|%v|%s|%d|%v|%v|%d|%v|%d", c.Transport, c.Shape, c.Gzip, c.PlainFrames, strings.Join(sizes, ","), len(c.Replies), c.Chunks, c.EOFWithLast, c.TruncateAt, c.PingPong, c.FinalCode)
 		}
 		evid.Eval(key, cl...)
 		evid.Sample(c.Transport+"/"+c.Shape, map[string]any{"brief": brief(c, -1), "replies": len(c.Replies), "final_code": c.FinalCode})
